@@ -40,7 +40,8 @@ def check(ctx):
     os.remove(dot)
     rng = random.Random(ctx.seed)
     walks, total, covered = vlib.edge_cover(inits, edges, rng=rng, max_walk=60)
-    ops = [[[a] + args for a, args in (vlib.parse_label(l) for l in w)] for w in walks]
+    # (the Next disjuncts are the actions wrapped with the frame condition of the in-flight-flush variable: NewPageF ...)
+    ops = [[[a[:-1] if a.endswith("F") and a != "F" else a] + args for a, args in (vlib.parse_label(l) for l in w)] for w in walks]
     wf = os.path.join(ctx.work, "walks.json")
     json.dump(ops, open(wf, "w"))
     tr = os.path.join(ctx.work, "walk.ndjson")
